@@ -129,15 +129,18 @@ ADDENDA = {
 }
 
 ADDENDA2 = {
+ "C16": "Quick tier frames messages of 2.8.1 and 2.8.2 too (five encoding characters, a version that is no decimal number).",
+ "C11": "Rounds of 'write through the pending chain, delete its top element' before the same write: what was created and deleted before does not matter.",
+ "C07": "MSH-12 with a second component written with the message's own component separator; an event no structure is known for (the parser's fallback).",
  "C01": "Every job runs in a process of its own, after something of the other escaping family has been encoded there.",
  "C03": "Quick tier: every structure of every version is at least instantiated once with all its members.",
  "C04": "Segments validated on their own: a value at every leaf the version defines (no error), content in a segment the version defines without fields (reported).",
- "C05": "Constructor scenarios carry the datatype given and the one the tables give: STRICT accepting another one is a violation (datatype_overridden_under_strict).",
+ "C05": "Constructor scenarios carry the datatype given and the one the tables give: STRICT accepting another one is a violation (datatype_overridden_under_strict). Named children of another structure handed to a parent six ways (foreign_child_accepted_by_strict).",
  "C06": "Datatype objects are handed over three ways: leaf.value = obj, parent.<name> = obj, the latter inside a message that has the delimiters as its own.",
- "C08": "Quick tier: every structure of every version is at least instantiated once with all its members.",
- "C09": "Operation SetAtObj (children[i] = element).",
- "C10": "Operation SetAtObj (children[i] = element): refused unless the element carries the name of the child at that position.",
- "C12": "Operation SetAtObj (children[i] = element).",
+ "C08": "Quick tier: every structure of every version is at least instantiated once with all its members. The same text parsed under STRICT: same tree where the names are unambiguous, every line as often as in the input.",
+ "C09": "Operation SetAtObj (children[i] = element). Operation SetDeep (a write through the child; histories ending in one are replayed with every operation); SetName / SetIdx also hand the value over as a datatype object.",
+ "C10": "Operation SetAtObj (children[i] = element): refused unless the element carries the name of the child at that position. Operations SetDeep and datatype-object assignments as in C09.",
+ "C12": "Operation SetAtObj (children[i] = element). Operation SetDeep; probes: a datatype object of another class through the parent's attribute, copies from a proxy with two repetitions, refused values for MSH-1 / MSH-2.",
  "C14": "Components created by a text assigned through their field; complex components of another version are written first; one process per job.",
  "C17": "The library's own constant DEFAULT_ENCODING_CHARS handed over as the explicit argument; to_er7() without arguments of every level inside a message with its own delimiters.",
  "C18": "Complex components of messages parsed with the profile at both levels: the datatypes of their subcomponents and validate() of the component alone follow the profile (ProfileTrace k=below).",
